@@ -14,6 +14,20 @@ controls), looked up on all three registries; the module-level registry and a de
 single lookup.  Sub-check `rereg` (F65): histories with the op "register an already registered type again N times"
 (N up to 1100) followed by lookups of every class.
 
+Sub-check `structural`: a type that matches only structurally (collections.abc.Sized / Iterable / Container / Callable, a
+user ABC with __subclasshook__, an ABC the class was attached to) registered together with a real base class of the object,
+whose subclass matches the ABC only through a method it adds itself; the SET of registrations is executed in every order on a
+fresh registry: each order must be valid (admissible()), and where the covering registered types are one class of the
+object's single inheritance chain and one structural type, the handler must be the same in every order ("the choice depends
+[not] on registration order").  WHICH of the two wins is not asserted (neither is a subclass of the other; DESIGN.md 6).
+Sub-check `rejected`: histories with register() calls that raise TypeError (a handler that is neither callable nor False next
+to valid handlers for other operations; a register_op() support detection that raises for the type): such a call registers
+nothing - no handler passed to it ever runs, every lookup stays as the accepted registrations say - and the outcomes after the
+last call are the same when no lookup at all was made before ("nor on which lookups happened before": the cold twin).
+Sub-check `reentrant`: glom calls made from INSIDE register() - the support detection (auto_func) of an extension operation,
+the one user callable a registration runs, looks up instances of the class being registered on the same registry; once
+register() has returned "the very next glom call" uses the registration, and the cold twin (no lookups) agrees.
+
 Oracle: admissible() - a validity predicate: the handler that runs must belong to a minimal element
 (under issubclass) of the registered types the object is an instance of; an exact registration of the
 object's own type wins; glom's two internal duck types rank below every nominal type.
@@ -23,6 +37,7 @@ import abc
 import sys
 import json
 import collections
+import collections.abc
 
 from hypothesis import strategies as st
 
@@ -42,7 +57,15 @@ RULE = ('class family of 20 fresh classes per case; histories of 1-6 registratio
         'optionally the ABC registered a second time with other handlers; every class x operation looked up on Glommer(), a bare Glommer and the '
         'module-level registry, and the module-level outcomes compared with the default Glommer\'s; non-trivial = an attached class '
         'that one of glom\'s duck types matches. rereg: 1-2 registrations, then one type registered again N times '
-        '(N in 2..1100), optionally a registration of a subclass afterwards; non-trivial = N >= 1000.')
+        '(N in 2..1100), optionally a registration of a subclass afterwards; non-trivial = N >= 1000. '
+        'structural: one ABC that matches structurally / virtually only (4 collections.abc classes, a __subclasshook__ ABC, ABC.register) '
+        'and a family Base [> Mid] > Sub [> Sub2], Plain(Base), Lone, Other with / without __dict__; 2-3 registrations (the ABC, Base or '
+        'Mid, optionally a third class) executed in all 2 / 6 orders on one registry kind, lookups after every step or after the last only; '
+        'non-trivial = some class x operation is covered by exactly one class of its chain and the structural type. '
+        'rejected: 1-4 register() calls, at least one of them rejected (invalid handler for one operation x valid handlers for a subset '
+        'of the others, or a raising support detection of an extension operation named aa_/hh_/zz_probe), warm-ups, watched classes = '
+        'those named + covered subclasses + 2 others; cold twin; non-trivial = a rejected call that carries a valid handler. '
+        'reentrant: 1-3 registrations, at least one with 1-3 lookups made from inside the call; non-trivial = the type is new to the registry.')
 ASSUMPTIONS = [
     'observation only through glom(), Glommer.glom(), assign-/delete-specs; handlers are tagged with the class they were registered for',
     'for unrelated registered bases of one class (diamond, mixin) either handler is accepted',
@@ -54,6 +77,15 @@ ASSUMPTIONS = [
     'virtual: an ABC that defines __iter__ covers virtual subclasses without __iter__ like any others (F91)',
     'no precedence is asserted between a virtual base and a registered nominal base (virtual: the only registered types are the '
     'ABC and the defaults; object is not registered with handlers either: the duck types are filed below object)',
+    'structural: between ONE registered class of the object\'s single inheritance chain and ONE registered type that matches it by '
+    '__subclasshook__ / ABC.register() only, either handler is accepted, but the same one in every order of the registrations; for two '
+    'unrelated structural types (as for the two bases of a diamond) no order independence is asserted',
+    'rejected: a register() call that raises TypeError registers nothing (a handler that is neither callable nor False, and a support '
+    'detection that raises, are documented to be refused with TypeError); a call that was expected to raise and did not is reported',
+    'reentrant: the outcome of the lookups made DURING a register() call is not asserted, only that of the calls after it returned; '
+    'the extension operation is registered with the module-level register_op() before the registries are created (forked child)',
+    'cold twin (rejected, reentrant): the same history on a fresh registry without warm-ups, intermediate and re-entrant lookups gives '
+    'the same outcome for every watched class x operation after the last call, including outcomes left to autodiscovery',
 ]
 
 OPS = ['get', 'iterate', 'keys', 'assign', 'delete']
@@ -112,10 +144,16 @@ class Model(object):
         # op -> {cls: (tag, fuzzy)}   tag: ('user', serial, clsname) | 'auto'
         self.table = dict((op, collections.OrderedDict()) for op in OPS)
         self.serial = 0
+        self.known = set()       # names of the classes with at least one accepted registration
+
+    def reject(self):
+        """a register() call that raised: nothing is registered (its handlers carry the serial of the attempt)"""
+        self.serial += 1
 
     def register(self, name, kind, exact):
         cls = self.fam[name]
         self.serial += 1
+        self.known.add(name)
         explicit = explicit_ops(kind)
         for op in OPS:
             if isinstance(kind, str) and kind.startswith('off-'):
@@ -144,13 +182,18 @@ class Model(object):
         tab = self.table[op]
         if t in tab:
             return {tab[t][0]}
-        cands = [c for c, (tag, fuzzy) in tab.items() if fuzzy and isinstance(obj, c)]
-        mins = [c for c in cands if not any(o is not c and issubclass(o, c) for o in cands)]
+        mins = self.minimal(obj, op)
         if mins:
             # a nominal default type nearer than every user type? (e.g. list for an instance of a list subclass
             # when only an unrelated base is registered) - builtin defaults are ancestors here, never nearer
             return set(tab[c][0] for c in mins)
         return {'default'}
+
+    def minimal(self, obj, op):
+        """the registered covering types of obj that no other one is a subclass of (the object's own type not registered)"""
+        tab = self.table[op]
+        cands = [c for c, (tag, fuzzy) in tab.items() if fuzzy and isinstance(obj, c)]
+        return [c for c in cands if not any(o is not c and issubclass(o, c) for o in cands)]
 
 
 def explicit_ops(kind):
@@ -169,17 +212,46 @@ def tagname(tag):
         return tag
     if tag[0] == 'crash':
         return 'crash(%s)' % (tag[1],)
+    if tag[0] == 'rejected':
+        return 'REJECTED-CALL:%s#%d:%s' % (tag[2], tag[1], tag[3])
     return '%s#%d:%s' % (tag[2], tag[1], tag[3])
 
 
 # ---------------------------------------------------------------------------
 # real world
 
+class ProbeHook(object):
+    """Support detection (auto_func) of an extension operation registered with register_op(): the one user callable the
+    registry calls in the middle of register() - once per operation and type, when a type is registered for the first
+    time.  Unarmed it answers "not supported".  Armed for one register() call of one World it either raises (the call is
+    then rejected with TypeError) or makes glom calls on that same registry: lookups DURING the registration."""
+    def __init__(self):
+        self.armed = None
+        self.calls = 0
+
+    def __call__(self, type_obj):
+        a = self.armed
+        if a is None or type_obj is not a['cls']:
+            return False
+        self.calls += 1
+        if a['raises']:
+            raise ValueError('no support detection for %s' % (type_obj.__name__,))
+        self.armed = None          # the lookups below must not re-enter the hook
+        try:
+            for cname, op in a['lookups']:
+                a['world'].observe(a['world'].inst(a['world'].fam, cname), op)
+        finally:
+            self.armed = a
+        return False
+
+
 class World(object):
-    def __init__(self, kind, fam):
+    def __init__(self, kind, fam, hook=None, inst=None):
         self.kind = kind
         self.fam = fam
         self.log = []
+        self.hook = hook
+        self.inst = inst
         if kind == 'glommer':
             self.g = Glommer()
         elif kind == 'bare':
@@ -192,11 +264,15 @@ class World(object):
             return glom.glom(target, spec)
         return self.g.glom(target, spec)
 
-    def register(self, name, kind, exact, serial):
+    def register(self, name, kind, exact, serial, bad=None, rejected=False, reenter=None):
+        """bad: None | ['handler', op, value] (a handler that is neither callable nor False) | ['auto'] (the support
+        detection of the extension operation raises for this type); rejected: the call is expected to raise, its handlers
+        are tagged as such; reenter: lookups [[class, op], ...] made from inside the call.  Returns the TypeError the
+        call raised, else None."""
         cls = self.fam[name]
 
         def mk(op):
-            tag = ('user', serial, name, op)
+            tag = ('rejected' if rejected else 'user', serial, name, op)
             if op == 'get':
                 return lambda obj, key: ('H', tag, key)
             if op == 'iterate':
@@ -210,10 +286,23 @@ class World(object):
             kw = {kind[4:]: False}
         else:
             kw = dict((op, mk(op)) for op in explicit_ops(kind))
-        if self.g is None:
-            glom.register(cls, exact=exact, **kw)
-        else:
-            self.g.register(cls, exact=exact, **kw)
+        if bad is not None and bad[0] == 'handler':
+            kw[bad[1]] = bad[2]
+        if self.hook is not None and (reenter or (bad is not None and bad[0] == 'auto')):
+            self.hook.armed = {'cls': cls, 'raises': bad is not None and bad[0] == 'auto', 'lookups': reenter or [], 'world': self}
+        try:
+            if self.g is None:
+                glom.register(cls, exact=exact, **kw)
+            else:
+                self.g.register(cls, exact=exact, **kw)
+        except TypeError as e:
+            if bad is None:
+                raise
+            return e
+        finally:
+            if self.hook is not None:
+                self.hook.armed = None
+        return None
 
     def observe(self, obj, op):
         """tag of the handler that ran | 'default' | 'unregistered' | ('crash', 'RecursionError')"""
@@ -288,43 +377,79 @@ class default_stack(object):
         sys.setrecursionlimit(self.old)
 
 
-def run_history(recipe, fam=None, names=None, inst=None, trace=None):
+MUTATIONS = ('reg', 'rereg', 'badreg', 'reg-re')
+
+
+def run_history(recipe, fam=None, names=None, inst=None, trace=None, lookups='all'):
     """executes the history; returns (violation | None, stats).  fam / names / inst: another class family than the
-    default one (sub-check virtual); trace: a list that receives every (step index, class, op, outcome) looked up"""
+    default one (sub-checks virtual, structural); trace: a list that receives every (step index, class, op, outcome)
+    looked up; lookups='final': the same registrations with NO lookup before the last one has returned (no warm-ups,
+    no lookups between or during the registrations) - "nor on which lookups happened before" """
     with default_stack():
-        return _run_history(recipe, fam, names, inst, trace)
+        return _run_history(recipe, fam, names, inst, trace, lookups)
 
 
-def _run_history(recipe, fam, names, inst, trace):
+def _run_history(recipe, fam, names, inst, trace, lookups):
     if fam is None:
-        fam, names, inst = make_family(), NAMES, instance
+        # 'watch': the classes looked up after every step (default: the whole family)
+        fam, names, inst = make_family(), recipe.get('watch') or NAMES, instance
     kind = recipe['registry']
-    world = World(kind, fam)
+    hook = None
+    if recipe.get('probe_op'):
+        # an extension operation with a support-detection function, registered the public way (module-level
+        # register_op(); every Glommer created afterwards carries it): the caller runs this history in a forked child
+        hook = ProbeHook()
+        glom.register_op(recipe['probe_op'], auto_func=hook)
+    world = World(kind, fam, hook, inst)
     bystanders = [World('glommer', fam), World('bare', fam)]
     if kind != 'global':
         bystanders.append(World('global', fam))
     model = Model(fam, kind != 'bare')
     nreg = 0
-    stats = {'lookups': 0, 'auto-skipped': 0, 'f14': 0}
+    stats = {'lookups': 0, 'auto-skipped': 0, 'f14': 0, 'hook-calls': 0}
+    last = max([i for i, s in enumerate(recipe['steps']) if s[0] in MUTATIONS] or [-1])
     for si, step in enumerate(recipe['steps']):
         if step[0] == 'warm':
-            world.observe(inst(fam, step[1]), step[2])
+            if lookups == 'all':
+                world.observe(inst(fam, step[1]), step[2])
             continue
         if step[0] == 'warm-all':
-            for cname in names:
-                for op in OPS:
-                    world.observe(inst(fam, cname), op)
+            if lookups == 'all':
+                for cname in names:
+                    for op in OPS:
+                        world.observe(inst(fam, cname), op)
             continue
         # ['reg', name, kind, exact] | ['rereg', name, kind, exact, n]: the same registration n times over
+        # ['badreg', name, kind, exact, bad]: a call that carries handlers for the operations of kind and is REJECTED
+        # ['reg-re', name, kind, exact, [[class, op], ...]]: lookups made from inside the call (ProbeHook)
         name, rkind, exact = step[1:4]
-        try:
-            for _ in range(step[4] if step[0] == 'rereg' else 1):
+        if step[0] == 'badreg':
+            bad = step[4]
+            # the support detection is asked only for a type the registry does not know yet
+            expected = bad[0] == 'handler' or name not in model.known
+            if expected:
+                model.reject()
+            else:
                 model.register(name, rkind, exact)
-                world.register(name, rkind, exact, model.serial)
-        except RecursionError as e:
-            return ('register-crashed', 'registry=%s history %r: RecursionError in register() of step %d' % (kind, recipe['steps'], si)), stats
+            exc = world.register(name, rkind, exact, model.serial, bad=bad, rejected=expected)
+            if expected and exc is None:
+                return ('invalid-register-accepted', 'registry=%s history %r: the register() call of step %d did not raise TypeError'
+                        % (kind, recipe['steps'], si)), stats
+            if not expected and exc is not None:
+                return ('valid-register-rejected', 'registry=%s history %r: the register() call of step %d raised %r'
+                        % (kind, recipe['steps'], si, exc)), stats
+        else:
+            try:
+                for _ in range(step[4] if step[0] == 'rereg' else 1):
+                    model.register(name, rkind, exact)
+                    world.register(name, rkind, exact, model.serial,
+                                   reenter=step[4] if step[0] == 'reg-re' and lookups == 'all' else None)
+            except RecursionError as e:
+                return ('register-crashed', 'registry=%s history %r: RecursionError in register() of step %d' % (kind, recipe['steps'], si)), stats
         nreg += 1
-        # the very next calls must see the registration: look every class up for every op
+        if lookups == 'final' and si != last:
+            continue
+        # the very next calls must see the registration (and nothing of a rejected one): look every class up for every op
         for cname in names:
             for op in OPS:
                 obj = inst(fam, cname)
@@ -337,6 +462,11 @@ def _run_history(recipe, fam, names, inst, trace):
                     # no registration makes a lookup die (also not one whose outcome is left to autodiscovery)
                     return ('lookup-crashed', 'registry=%s after %r: %s of an instance of %s died with %s'
                             % (kind, recipe['steps'][:si + 1], op, cname, got[1])), stats
+                if isinstance(got, tuple) and got[0] == 'rejected':
+                    # (also where the outcome is otherwise left to autodiscovery)
+                    return ('rejected-handler-ran', 'registry=%s after %r%s: %s of an instance of %s ran %s, a handler passed to a register() '
+                            'call that raised TypeError' % (kind, recipe['steps'][:si + 1], ' without any earlier lookup' if lookups == 'final' else '',
+                                                            op, cname, tagname(got))), stats
                 if 'auto' in adm:
                     stats['auto-skipped'] += 1
                     continue
@@ -351,8 +481,8 @@ def _run_history(recipe, fam, names, inst, trace):
                 if not ok and got == 'unregistered' and op == 'keys':
                     ok = adm == {'default'}
                 if not ok:
-                    detail = ('registry=%s after %r: %s of an instance of %s ran %s; admissible: %s'
-                              % (kind, [s for s in recipe['steps']], op, cname,
+                    detail = ('registry=%s after %r%s: %s of an instance of %s ran %s; admissible: %s'
+                              % (kind, [s for s in recipe['steps']], ' without any earlier lookup' if lookups == 'final' else '', op, cname,
                                  tagname(got) if not isinstance(got, str) else got, sorted(tagname(a) for a in adm)))
                     f14 = (kind != 'bare' and isinstance(got, str) and got in ('default', 'unregistered')
                            and (cname in DUCK_ITERABLE or cname in DUCK_DICT))
@@ -362,8 +492,10 @@ def _run_history(recipe, fam, names, inst, trace):
                         stats.setdefault('f14-detail', detail)
                         continue
                     return ('wrong-handler', detail), stats
+    if hook is not None:
+        stats['hook-calls'] = hook.calls
     # isolation: bystander registries behave as if nothing had been registered
-    for w in bystanders:
+    for w in (bystanders if lookups == 'all' else []):
         for cname in names:
             for op in ('get', 'iterate'):
                 got = w.observe(inst(fam, cname), op)
@@ -375,28 +507,79 @@ def _run_history(recipe, fam, names, inst, trace):
     return None, stats
 
 
+def history_outcome(arg):
+    """one execution of a history: ({'res': violation | None, 'final': the lookups after the last registration,
+    'hook': calls of the support detection that made lookups / raised}, stats)"""
+    recipe, lookups = arg
+    trace = []
+    res, stats = run_history(recipe, trace=trace, lookups=lookups)
+    last = max([i for i, s in enumerate(recipe['steps']) if s[0] in MUTATIONS] or [-1])
+    return {'res': res, 'final': [list(t[1:]) for t in trace if t[0] == last], 'hook': stats['hook-calls']}, stats
+
+
 def check(recipe, ctx):
     kind = recipe['registry']
-    regs = [s for s in recipe['steps'] if s[0] == 'reg']
+    steps = recipe['steps']
+    regs = [s for s in steps if s[0] in ('reg', 'reg-re')]
     names = set(s[1] for s in regs)
     ctx.label('registry-' + kind, 'regs-%d' % min(len(regs), 4))
     ctx.nontrivial(len(regs) >= 3 and len(names) >= 2)
-    for s in recipe['steps']:
+    seen = set()
+    labels = set()           # every label once per case: the shares are shares of cases
+    for i, s in enumerate(steps):
         if s[0] == 'rereg':
             # F65: the same type registered again s[4] times; >= 1000 is the depth at which a nested tree kills the lookups
             ctx.label('rereg', 'rereg-deep' if s[4] >= 1000 else 'rereg-shallow', 'rereg-' + ('exact' if s[3] else 'fuzzy'))
             ctx.nontrivial(s[4] >= 1000)
-    if kind == 'global':
-        res = in_child(recipe)
-    else:
-        res, stats = run_history(recipe)
-    if res is not None:
-        raise Mismatch(res[0], res[1])
+        if s[0] == 'badreg' and (s[4][0] == 'handler' or s[1] not in seen):
+            # a call that is rejected although it carries valid handlers, too: nothing of it may stay behind
+            valid = explicit_ops(s[2])
+            offending = s[4][1] if s[4][0] == 'handler' else recipe.get('probe_op')
+            labels.update(['badreg', 'badreg-' + s[4][0], 'badreg-on-registered' if s[1] in seen else 'badreg-on-new-type'])
+            if valid:
+                labels.add('badreg-partial')
+            if any(v < offending for v in valid):
+                # (the operations are worked through in sorted order)
+                labels.add('badreg-valid-sorts-first')
+            if any(t[0] in ('reg', 'reg-re') for t in steps[i + 1:]):
+                labels.add('badreg-then-reg')
+            ctx.nontrivial(bool(valid))
+        if s[0] == 'reg-re':
+            labels.update(['reentrant', 'reentrant-' + ('first-registration' if s[1] not in seen else 'known-type')])
+            if any(l[0] != s[1] for l in s[4]):
+                labels.add('reentrant-other-class')
+            ctx.nontrivial(s[1] not in seen)
+        if s[0] in ('reg', 'rereg', 'reg-re') or (s[0] == 'badreg' and s[4][0] == 'auto' and s[1] in seen):
+            seen.add(s[1])
+    ctx.label(*sorted(labels))
+    child = kind == 'global' or bool(recipe.get('probe_op'))
+    full = in_child((recipe, 'all'), history_outcome, raw=True) if child else history_outcome((recipe, 'all'))[0]
+    if full['res'] is not None:
+        raise Mismatch(full['res'][0], full['res'][1])
+    if full['hook']:
+        ctx.label('hook-ran')
+    nmut = len([s for s in steps if s[0] in MUTATIONS])
+    if not recipe.get('twin') or (nmut <= 1 and not any(s[0] in ('warm', 'warm-all', 'reg-re') for s in steps)):
+        ctx.outcome([kind, len(regs)])
+        return
+    # "the choice depends [not] on which lookups happened before": the same registrations on a fresh registry with no
+    # lookup at all before the last one has returned - every outcome (also those left to autodiscovery) is the same
+    ctx.label('cold-twin')
+    cold = in_child((recipe, 'final'), history_outcome, raw=True) if child else history_outcome((recipe, 'final'))[0]
+    if cold['res'] is not None:
+        raise Mismatch(cold['res'][0], cold['res'][1])
+    if len(cold['final']) != len(full['final']):
+        raise HarnessBug('cold twin: %d final lookups, %d in the full run' % (len(cold['final']), len(full['final'])))
+    for a, b in zip(full['final'], cold['final']):
+        if list(a) != list(b):
+            raise Mismatch('lookup-history-dependent', 'registry=%s history %r: after the last registration %s of an instance of %s ran %s, '
+                           'but %s when no lookup was made before it (no warm-ups, no lookups between or during the registrations)'
+                           % (kind, steps, a[1], a[0], a[2], b[2]))
     ctx.outcome([kind, len(regs)])
 
 
-def in_child(recipe, fn=None):
-    """run the history in a forked child so that module-level registrations never leak"""
+def in_child(recipe, fn=None, raw=False):
+    """run the history in a forked child so that module-level registrations never leak; raw: fn's first result as it is"""
     r, w = os.pipe()
     pid = os.fork()
     if pid == 0:
@@ -424,6 +607,8 @@ def in_child(recipe, fn=None):
     data = json.loads(b''.join(chunks).decode('utf8') or '{"crash": "no output from child"}')
     if 'crash' in data:
         raise Mismatch('unexpected-exception', 'child: ' + data['crash'])
+    if raw:
+        return data['res']
     return tuple(data['res']) if data['res'] else None
 
 
@@ -599,6 +784,97 @@ def gen_rereg(draw):
 
 
 # ---------------------------------------------------------------------------
+# register() calls that are REJECTED (TypeError) register nothing; lookups made DURING a register() call
+
+RELATED = [['A', 'B', 'C', 'F', 'E', 'D', 'M'], ['A', 'B', 'D', 'E'], ['L', 'L2', 'DD', 'TT'], ['V', 'W', 'It', 'A', 'Q', 'W2'],
+           ['P', 'P2', 'A', 'B'], NAMES]
+_FAM0 = make_family()
+# every class and the classes of the family its registration covers
+COVERED = dict((n, [n] + [m for m in NAMES if m != n and issubclass(_FAM0[m], _FAM0[n])]) for n in NAMES)
+BAD_VALUES = ['children', 42, 0, None, [1]]        # neither callable nor False
+PROBE_OPS = ['aa_probe', 'hh_probe', 'zz_probe']   # sorts before / between / after the built-in operations
+
+
+def _draw_kind(draw):
+    k = draw(st.sampled_from(['all', 'all', 'get', 'subset']))
+    if k == 'subset':
+        ops = [op for op in OPS if draw(st.booleans())]
+        return ops or ['get']
+    return k
+
+
+def _draw_watch(draw, steps):
+    """the classes looked up after every step: those the history names, up to two classes each of them covers, two others"""
+    watch = []
+    for s in steps:
+        if s[0] in MUTATIONS or s[0] == 'warm':
+            watch.append(s[1])
+        if s[0] in MUTATIONS and len(COVERED[s[1]]) > 1:
+            watch.append(draw(st.sampled_from(COVERED[s[1]][1:])))
+            watch.append(draw(st.sampled_from(COVERED[s[1]][1:])))
+        if s[0] == 'reg-re':
+            watch.extend(l[0] for l in s[4])
+    watch.append(draw(st.sampled_from(NAMES)))
+    watch.append(draw(st.sampled_from(NAMES)))
+    return [n for n in NAMES if n in watch]
+
+
+def gen_rejected(draw):
+    """histories with at least one register() call that raises TypeError: a handler that is neither callable nor False
+    next to valid handlers for other operations, or a support detection (register_op auto_func) that raises for the type"""
+    related = draw(st.sampled_from(RELATED))
+    probe_op = draw(st.sampled_from([None, None] + PROBE_OPS))
+    n = draw(st.sampled_from([1, 2, 2, 3, 3, 4]))
+    k = draw(st.sampled_from(range(n)))
+    steps, registered = [], []
+    for i in range(n):
+        if draw(st.sampled_from([0, 1, 2])) == 0:
+            steps.append(['warm', draw(st.sampled_from(related)), draw(st.sampled_from(OPS))])
+        name = draw(st.sampled_from(related))
+        exact = draw(st.sampled_from([False, False, True]))
+        if i == k or draw(st.sampled_from([False, False, True])):
+            if registered and draw(st.sampled_from([True, True, True, False])):
+                name = draw(st.sampled_from(registered))      # a rejected call for a type that has handlers already
+            if probe_op is not None and draw(st.sampled_from([False, True])):
+                steps.append(['badreg', name, _draw_kind(draw), exact, ['auto']])
+            else:
+                badop = draw(st.sampled_from(OPS))
+                valid = [op for op in OPS if op != badop and draw(st.sampled_from([True, True, False]))]
+                steps.append(['badreg', name, valid, exact, ['handler', badop, draw(st.sampled_from(BAD_VALUES))]])
+        else:
+            steps.append(['reg', name, _draw_kind(draw), exact])
+            registered.append(name)
+    recipe = {'registry': draw(st.sampled_from(['glommer', 'bare', 'global'])), 'steps': steps, 'twin': True, 'watch': _draw_watch(draw, steps)}
+    if probe_op is not None:
+        recipe['probe_op'] = probe_op
+    return recipe
+
+
+def gen_reentrant(draw):
+    """histories in which glom calls are made from inside register(): the support detection of an extension operation looks
+    up instances of the class being registered (or of classes it covers, or of any class) on the same registry"""
+    related = draw(st.sampled_from(RELATED))
+    n = draw(st.sampled_from([1, 2, 2, 3]))
+    k = draw(st.sampled_from(range(n)))
+    steps = []
+    for i in range(n):
+        if draw(st.sampled_from([0, 1, 2])) == 0:
+            steps.append(['warm', draw(st.sampled_from(related)), draw(st.sampled_from(OPS))])
+        name = draw(st.sampled_from(related))
+        kind = _draw_kind(draw)
+        exact = draw(st.sampled_from([False, False, False, True]))
+        if i == k or draw(st.booleans()):
+            lookups = [[draw(st.sampled_from(COVERED[name][:1] * 2 + COVERED[name])), draw(st.sampled_from(explicit_ops(kind)))]]
+            for _ in range(draw(st.sampled_from([0, 0, 1, 2]))):
+                lookups.append([draw(st.sampled_from(COVERED[name] + NAMES)), draw(st.sampled_from(OPS))])
+            steps.append(['reg-re', name, kind, exact, lookups])
+        else:
+            steps.append(['reg', name, kind, exact])
+    return {'registry': draw(st.sampled_from(['glommer', 'bare', 'global'])), 'probe_op': draw(st.sampled_from(PROBE_OPS)), 'steps': steps,
+            'twin': True, 'watch': _draw_watch(draw, steps)}
+
+
+# ---------------------------------------------------------------------------
 # F66: ONE registered ABC covers its virtual subclasses on every registry; module-level glom == default Glommer
 #
 # recipe: {'abc_iter': bool                      the ABC itself defines __iter__ (like collections.abc.Mapping)
@@ -722,6 +998,178 @@ def check_virtual(recipe, ctx):
     ctx.outcome([len(recipe['classes']), ops])
 
 
+# ---------------------------------------------------------------------------
+# a type that matches only STRUCTURALLY (collections.abc.Sized / Iterable / ..., a user ABC with __subclasshook__, an ABC
+# the class was attached to with ABC.register()) registered together with a real base class of the object
+#
+# recipe: {'abc': 'Sized' | 'Iterable' | 'Container' | 'Callable' | 'hook' | 'attach',
+#          'base_dict': bool       instances of Base (and below) have a __dict__ (else slots)
+#          'mid': bool             a class Mid between Base and Sub
+#          'base_matches': bool    control: Base itself matches the ABC (then Base is the more specific type: issubclass(Base, ABC))
+#          'sub2': bool            a subclass Sub2 of Sub
+#          'warm': bool            every class looked up before the first and after every registration (else: after the last one only)
+#          'registry': 'glommer' | 'bare' | 'global'
+#          'regs': [[name, kind, exact], ...]}     a SET of registrations (distinct names): executed in every order
+#
+# classes: V (the ABC); Base; [Mid(Base)]; Sub(Mid | Base) - matches V only through the method it adds / through V.register(Sub);
+#          [Sub2(Sub)]; Plain(Base) - does not match V; Lone - matches V, unrelated to Base; Other - unrelated to both
+
+S_ABCS = {'Sized': (collections.abc.Sized, '__len__', lambda self: 1),
+          'Iterable': (collections.abc.Iterable, '__iter__', lambda self: iter(())),
+          'Container': (collections.abc.Container, '__contains__', lambda self, item: False),
+          'Callable': (collections.abc.Callable, '__call__', lambda self: None)}
+
+
+def make_sfamily(recipe):
+    fam = collections.OrderedDict()
+    kind = recipe['abc']
+    if kind in S_ABCS:
+        fam['V'], meth, impl = S_ABCS[kind]
+    elif kind == 'hook':
+        meth, impl = 'quack', (lambda self: 'quack')
+
+        def hook(cls, C):
+            if cls is fam['V'] and any('quack' in B.__dict__ for B in C.__mro__):
+                return True
+            return NotImplemented
+        fam['V'] = abc.ABCMeta('V', (object,), {'__slots__': (), '__subclasshook__': classmethod(hook)})
+    else:
+        meth, impl = None, None
+        fam['V'] = abc.ABCMeta('V', (object,), {'__slots__': ()})
+
+    def ns(first, matching):
+        d = {} if recipe['base_dict'] else {'__slots__': ('x',) if first else ()}
+        if matching and meth is not None:
+            d[meth] = impl
+        return d
+    fam['Base'] = type('Base', (object,), ns(True, recipe['base_matches']))
+    top = fam['Base']
+    if recipe['mid']:
+        top = fam['Mid'] = type('Mid', (fam['Base'],), ns(False, False))
+    fam['Sub'] = type('Sub', (top,), ns(False, True))
+    if recipe['sub2']:
+        fam['Sub2'] = type('Sub2', (fam['Sub'],), ns(False, False))
+    fam['Plain'] = type('Plain', (fam['Base'],), ns(False, False))
+    fam['Lone'] = type('Lone', (object,), ns(True, True))
+    fam['Other'] = type('Other', (object,), ns(True, False))
+    if meth is None:
+        fam['V'].register(fam['Sub'])
+        fam['V'].register(fam['Lone'])
+        if recipe['base_matches']:
+            fam['V'].register(fam['Base'])
+    names = [n for n in fam if n != 'V']
+    # the family is what the recipe says (a wrong generator must not pass for a quiet check)
+    for n in names:
+        want = n in ('Sub', 'Sub2', 'Lone') or (recipe['base_matches'] and n in ('Base', 'Mid', 'Plain'))
+        if issubclass(fam[n], fam['V']) != want or isinstance(vinstance(fam, n), fam['V']) != want or fam['V'] in fam[n].__mro__:
+            raise HarnessBug('structural: class %s of %r: issubclass(%s, V) is %r' % (n, recipe, n, not want))
+    return fam, names
+
+
+def gen_structural(draw):
+    recipe = {'abc': draw(st.sampled_from(['Sized', 'Iterable', 'Container', 'Callable', 'hook', 'hook', 'attach'])),
+              'base_dict': draw(st.booleans()), 'mid': draw(st.booleans()),
+              'base_matches': draw(st.sampled_from([False, False, False, False, True])),
+              'sub2': draw(st.sampled_from([False, True])), 'warm': draw(st.sampled_from([False, False, True])),
+              'registry': draw(st.sampled_from(['glommer', 'bare', 'global']))}
+    kinds = ['all', 'all', 'all', ['get'], ['get', 'iterate'], ['iterate', 'assign'], ['get', 'keys', 'delete']]
+    nominal = draw(st.sampled_from(['Base', 'Base', 'Mid'] if recipe['mid'] else ['Base']))
+    names = ['V', nominal]
+    third = draw(st.sampled_from([None, None, 'Other', 'Lone', 'Plain'] + (['Base', 'Mid'] * 2 if recipe['mid'] else [])))
+    if third is not None and third not in names:
+        names.append(third)
+    kind0 = draw(st.sampled_from(kinds))
+    regs = []
+    for i, n in enumerate(names):
+        # the ABC and the base class mostly for the same operations, and covering their subclasses
+        kind = kind0 if i < 2 and draw(st.sampled_from([True, True, True, False])) else draw(st.sampled_from(kinds))
+        regs.append([n, kind, draw(st.sampled_from([False] * 7 + [True]))])
+    recipe['regs'] = regs
+    return recipe
+
+
+def structural_one(arg):
+    """one order of the registrations on one registry: ({'res': violation | None, 'final': lookups after the last one}, stats)"""
+    recipe, kind, order = arg
+    fam, names = make_sfamily(recipe)
+    steps = ([['warm-all']] if recipe['warm'] else []) + [['reg'] + recipe['regs'][i] for i in order]
+    trace = []
+    # 'warm': every class is looked up before the first and after every registration, else only after the last one
+    res, stats = run_history({'registry': kind, 'steps': steps}, fam=fam, names=names, inst=vinstance, trace=trace,
+                             lookups='all' if recipe['warm'] else 'final')
+    # outcomes without the serial number of the registration: the names of a set of registrations are distinct
+    final = [[t[1], t[2], t[3].split('#')[0] + ':' + t[3].split(':')[-1] if '#' in t[3] else t[3]] for t in trace if t[0] == len(steps) - 1]
+    return {'res': res, 'final': final}, stats
+
+
+def structural_pairs(recipe):
+    """(class, op) -> 'chain' | 'versus' for the lookups whose outcome must not depend on the order of the registrations:
+    the handler is a registered one (nothing left to autodiscovery) and the registered types that cover the object
+    without a more specific registered one below them are at most ONE class of its (single) inheritance chain and at most
+    ONE type that matches it structurally / virtually only ('versus': one of each).  Two unrelated structural types, like
+    the two unrelated bases of a diamond, have no order the statement would name."""
+    import itertools
+    fam, names = make_sfamily(recipe)
+    model = Model(fam, True)
+    for name, kind, exact in recipe['regs']:
+        model.register(name, kind, exact)
+    pairs = {}
+    for cname in names:
+        obj = vinstance(fam, cname)
+        for op in OPS:
+            adm = model.admissible(obj, op)
+            if 'auto' in adm:
+                continue
+            if op == 'keys' and any(a == 'auto' or (isinstance(a, tuple) and a[0] == 'off') for a in model.admissible(obj, 'get')):
+                continue
+            if type(obj) in model.table[op]:
+                pairs[(cname, op)] = 'chain'
+                continue
+            mins = model.minimal(obj, op)
+            nominal = [c for c in mins if c in type(obj).__mro__]
+            if len(nominal) <= 1 and len(mins) - len(nominal) <= 1:
+                pairs[(cname, op)] = 'versus' if len(mins) == 2 else 'chain'
+    return pairs
+
+
+def check_structural(recipe, ctx):
+    import itertools
+    pairs = structural_pairs(recipe)
+    versus = sorted(k for k, v in pairs.items() if v == 'versus')
+    ctx.label('abc-' + recipe['abc'], 'abc-stdlib' if recipe['abc'] in S_ABCS else 'abc-user', 'regs-%d' % len(recipe['regs']))
+    if versus:
+        # the class of seeded change C13-I: a real base class and a type that matches by __subclasshook__ / ABC.register() only
+        ctx.label('structural-vs-base')
+        if any(c == 'Sub2' for c, op in versus):
+            ctx.label('structural-vs-base-deeper')
+        if any(r[0] == 'Mid' for r in recipe['regs']) and any(r[0] == 'Base' for r in recipe['regs']):
+            ctx.label('structural-vs-chain-of-two')
+    if recipe['base_matches']:
+        ctx.label('base-matches-abc')
+    ctx.nontrivial(bool(versus))
+    orders = list(itertools.permutations(range(len(recipe['regs']))))
+    ctx.label('registry-' + recipe['registry'], 'lookups-all' if recipe['warm'] else 'lookups-final')
+    for kind in (recipe['registry'],):
+        finals = []
+        for order in orders:
+            arg = (recipe, kind, list(order))
+            out = in_child(arg, structural_one, raw=True) if kind == 'global' else structural_one(arg)[0]
+            if out['res'] is not None:
+                raise Mismatch(out['res'][0], out['res'][1])
+            finals.append(out['final'])
+        for order, final in zip(orders[1:], finals[1:]):
+            if len(final) != len(finals[0]):
+                raise HarnessBug('structural: %d lookups in order %r, %d in order %r' % (len(final), order, len(finals[0]), orders[0]))
+            for a, b in zip(finals[0], final):
+                if (a[0], a[1]) in pairs and list(a) != list(b):
+                    regs = recipe['regs']
+                    raise Mismatch('registration-order-dependent',
+                                   'registry=%s family %r: %s of an instance of %s ran %s after the registrations %r, but %s after the same '
+                                   'registrations in the order %r' % (kind, dict((k, v) for k, v in recipe.items() if k != 'regs'), a[1], a[0], a[2],
+                                                                     [regs[i] for i in orders[0]], b[2], [regs[i] for i in order]))
+    ctx.outcome([recipe['abc'], len(recipe['regs']), len(versus)])
+
+
 CLASSIFIERS = {'F14-duck-type-shadowing': is_f14}
 
 SUBS = [
@@ -732,6 +1180,13 @@ SUBS = [
                 'virtual-noniterable-of-iterable-abc': 0.09}),
     Sub('rereg', check, gen=gen_rereg, quick=64, thorough=100,
         floors={'rereg-deep': 0.25}),
+    Sub('structural', check_structural, gen=gen_structural, quick=160, thorough=400,
+        floors={'structural-vs-base': 0.3, 'abc-stdlib': 0.22, 'abc-user': 0.18, 'registry-global': 0.1, 'lookups-all': 0.1}),
+    Sub('rejected', check, gen=gen_rejected, quick=160, thorough=500,
+        floors={'badreg-partial': 0.45, 'badreg-valid-sorts-first': 0.3, 'badreg-handler': 0.3, 'badreg-auto': 0.09,
+                'badreg-then-reg': 0.15, 'badreg-on-registered': 0.1, 'cold-twin': 0.4}),
+    Sub('reentrant', check, gen=gen_reentrant, quick=100, thorough=300,
+        floors={'reentrant-first-registration': 0.45, 'hook-ran': 0.45, 'reentrant-other-class': 0.28, 'cold-twin': 0.5}),
     Sub('equiv', check_equiv, enum=enum_equiv),
     Sub('missing', check_missing, enum=enum_missing),
 ]
